@@ -316,8 +316,10 @@ class Run(object):
     def finish(self):
         w = self.w
         try:
-            for pp_ in w.ptyprocs:
-                pp_.closed = True      # __del__ must not touch a dead world
+            for ref in w.ptyprocs:
+                pp_ = ref()
+                if pp_ is not None:
+                    pp_.closed = True      # __del__ must not touch a dead world
         finally:
             w.teardown()
             shim.set_world(None)
